@@ -24,6 +24,7 @@ type GCRoles struct {
 	SOut, SSending, SClosed, SClosing     *types.Var
 	SCtx                                  *types.Var
 	Sends                                 []SendSite
+	WaitInline                            bool // the blocking-publish wait is a select inside Publish itself
 	LA                                    *LockAn
 	Funcs                                 []*ssa.Function
 	idSubs, idPersist, idTopic, idSending string
@@ -188,6 +189,16 @@ func (c *Check) gochannelRoles(id string) *GCRoles {
 			}
 		}
 	}
+	if r.Wait == nil {
+		// the wait may be written inline in Publish
+		for _, si := range Selects(r.Publish) {
+			for _, cs := range si.Cases {
+				if !cs.Send && AllOrigins(cs.Chan, IsFieldLoad(r.Closing)) && si.Blocking {
+					r.Wait, r.WaitInline = r.Publish, true
+				}
+			}
+		}
+	}
 	// closures of Subscribe
 	for _, f := range r.Subscribe.AnonFuncs {
 		for _, cl := range CallsIn(f) {
@@ -296,4 +307,31 @@ func (r *GCRoles) topicOrigin(v ssa.Value, depth int) bool {
 		}
 		return true
 	})
+}
+
+// waitSelects: the blocking selects (in the wait helper, or inline in Publish)
+// that wait for the fan-out's completion or the Pub/Sub's closing signal.
+func (r *GCRoles) waitSelects() []*SelInfo {
+	var out []*SelInfo
+	for _, si := range Selects(r.Wait) {
+		for _, cs := range si.Cases {
+			if !cs.Send && AllOrigins(cs.Chan, IsFieldLoad(r.Closing)) {
+				out = append(out, si)
+				break
+			}
+		}
+	}
+	return out
+}
+
+// waitSitesInPublish: the instructions of Publish at which the wait happens.
+func (r *GCRoles) waitSitesInPublish() []ssa.Instruction {
+	var out []ssa.Instruction
+	if r.WaitInline {
+		for _, si := range r.waitSelects() {
+			out = append(out, si.Sel)
+		}
+		return out
+	}
+	return instrsOf(Callers([]*ssa.Function{r.Publish}, r.Wait))
 }
